@@ -456,6 +456,29 @@ func evaluate(k Case) (out []finding) {
 			add("C09", "format-content", "Format rows %q/%q reduce to %q/%q, aligned sub-sequences are %q/%q", ra, rb, ga, gb, k.R[a0:a1], k.Q[b0:b1])
 		}
 	}
+	// Format of the same alignment over quality-carrying sequences: the letters of its rows are those of the
+	// plain rendering (the gap side of a long gap pair is made by another routine there)
+	func() {
+		defer func() {
+			if r := recover(); r != nil {
+				add("C09", "format-qletters-panic", "Format over quality sequences panicked: %v", r)
+			}
+		}()
+		qrows := align.Format(seqOf(k.Letters, k.R, true).(*linear.QSeq), seqOf(k.Letters, k.Q, true).(*linear.QSeq), ps, alphabet.Letter(k.Letters[0]))
+		var got [2]string
+		for i, row := range qrows {
+			if ql, ok := row.(alphabet.QLetters); ok {
+				b := make([]byte, len(ql))
+				for j := range ql {
+					b[j] = byte(ql[j].L)
+				}
+				got[i] = string(b)
+			}
+		}
+		if got[0] != ra || got[1] != rb {
+			add("C09", "format-qletters", "Format over quality sequences renders rows of %d and %d letters %q/%q, over plain sequences %d and %d: %q/%q", len(got[0]), len(got[1]), clipS(got[0]), clipS(got[1]), len(ra), len(rb), clipS(ra), clipS(rb))
+		}
+	}()
 	// the description turned round with Invert (after it has been looked at): the same path with the
 	// two sides exchanged, for Features and for Format alike; turned round again it is what it was
 	invert := func() bool {
@@ -496,6 +519,13 @@ func evaluate(k Case) (out []finding) {
 		}
 	}
 	return
+}
+
+func clipS(s string) string {
+	if len(s) > 80 {
+		return s[:80] + "..."
+	}
+	return s
 }
 
 // illTyped evaluates one ill-typed call: it must return an error, not panic.
@@ -597,7 +627,7 @@ func run(c *enum.Ctx, prop string) {
 	if prop == "C08" {
 		c.Rule("alphabet '-ac' (gap first): every ordered pair of non-empty sequences of length <=3 over {a,c}; every 3x3 matrix with substitution entries in {-1,0,1} and the four gap entries in {0,-1}; gap-open in {0,-1,-2}; the six aligners; a third of the matrices reach the aligner in a matrix value that earlier alignments used with other contents (rewritten in place), a fifth embedded in a matrix two rows/columns larger than the alphabet (extra cells 55), a fifth as a copy-on-write edit of a block-allocated matrix (outer rows views of one block, inner rows replaced), and one goroutine sweeps every 7th matrix through a single matrix value, all aligners applied again after each rewrite (thorough: lengths <=4, substitution entries in {-2..2} on a sliced sub-grid, gap entries {0,-1,-2}, and the alphabet '-acg' with lengths <=2; lengths 5 on every 40th matrix of the small grid); alphabets '-acgtn' (thorough also gap + 20 letters) with two asymmetric all-different matrices and every pair of sequences of length <=2; a fixed word of 260 / 520 letters over '-acgt' against itself with one letter inserted or deleted at every position around 256 / 512 and with blocks of 63..129 letters missing from either side, all aligners, on one goroutine; every pair of words of length <=3 over '-ac' that holds the gap letter itself, on a slice of the matrices with the gap/gap cell 0 and -1; every word pair on a few matrices directly after a REJECTED call (illegal letter at each position of either sequence, ragged matrix sharing the rows of the good one, mixed sequence types, distinct alphabet objects) on the same goroutine; oracle: the score of the RETURNED PATH recomputed from the letters equals the optimum of an independent reference DP (global / local / whole-query-ending-at-the-same-reference-position; affine: three-state with and without gap-to-gap transitions so that the two defect classes are told apart); non-trivial = cases whose optimal alignment contains at least one gap or mismatch")
 	} else {
-		c.Rule("every alignment produced in C08's space: monotone abutting path of equal-length blocks, one-sided gaps and empty zero-score pairs; global spans both sequences, local/fitted within bounds; per maximal run the reported scores equal the score recomputed from letters, matrix and gap parameters (gap-open once per run); plain and quality letters give identical pairs; align.Format gives two equal-length rows that reduce to the aligned sub-sequences; the pairs turned round with Invert after they have been read describe the same path with the sides exchanged (Features and Format), and turned round twice are what they were; plus ill-typed calls (an illegal letter at every position of either sequence, distinct alphabet objects, mixed Letters/QLetters, nil alphabet, alphabet without leading gap, ragged / non-square / undersized / empty matrices, among them every shape of 1..5 rows with each row as long as the row count or one off it) which must return an error and never panic; non-trivial = all")
+		c.Rule("every alignment produced in C08's space: monotone abutting path of equal-length blocks, one-sided gaps and empty zero-score pairs; global spans both sequences, local/fitted within bounds; per maximal run the reported scores equal the score recomputed from letters, matrix and gap parameters (gap-open once per run); plain and quality letters give identical pairs; align.Format gives two equal-length rows that reduce to the aligned sub-sequences, over quality-carrying sequences the same letters; the pairs turned round with Invert after they have been read describe the same path with the sides exchanged (Features and Format), and turned round twice are what they were; plus ill-typed calls (an illegal letter at every position of either sequence, distinct alphabet objects, mixed Letters/QLetters, nil alphabet, alphabet without leading gap, ragged / non-square / undersized / empty matrices, among them every shape of 1..5 rows with each row as long as the row count or one off it) which must return an error and never panic; non-trivial = all")
 	}
 	c.Assume("gap scores and gap-open are non-positive; sequences that hold the gap letter itself only in the family made for them (lengths <=3 over '-ac')")
 	maxLen, sub, gp := 3, []int{-1, 0, 1}, []int{0, -1}
